@@ -404,6 +404,23 @@ func (c *Ctx) checkWG(fn *ssa.Function, wg *ssa.Alloc) (bool, string, string) {
 					}
 				}
 			}
+			// done-last: the Done defer is registered before every other defer, so that it runs after them: a deferred
+			// handler that still writes the shared result must have finished when Wait() returns
+			for _, b := range f.Blocks {
+				for _, in := range b.Instrs {
+					d, isDefer := in.(*ssa.Defer)
+					if !isDefer || isDoneDefer(in, wg) {
+						continue
+					}
+					for _, b2 := range f.Blocks {
+						for _, in2 := range b2.Instrs {
+							if isDoneDefer(in2, wg) && an.CanReach(d, in2) {
+								bad = "in " + shortFn(f) + " the deferred call at " + c.ipos(d) + " is registered before the deferred Done and therefore runs after it: wg.Wait() can return while that handler is still writing the result"
+							}
+						}
+					}
+				}
+			}
 			// reachability of the function exit without the defer
 			for _, r := range an.Returns(f) {
 				if !mustPassThrough(f, r, func(x ssa.Instruction) bool { return isDoneDefer(x, wg) }) {
